@@ -48,8 +48,10 @@ Definition scan_nat (s : bytes) : option (N * bytes) :=
   match dec_parse d with Some n => Some (n, rest) | None => None end.
 Definition scan_int (s : bytes) : option (Z * bytes) :=
   match s with
-  | 45 :: s' => match scan_nat s' with Some (n, r) => Some ((- Z.of_N n)%Z, r) | None => None end
-  | _ => match scan_nat s with Some (n, r) => Some (Z.of_N n, r) | None => None end
+  | c :: s' =>
+      if c =? 45 then match scan_nat s' with Some (n, r) => Some ((- Z.of_N n)%Z, r) | None => None end
+      else match scan_nat s with Some (n, r) => Some (Z.of_N n, r) | None => None end
+  | [] => None
   end.
 Definition expect (c : N) (s : bytes) : option bytes :=
   match s with x :: s' => if x =? c then Some s' else None | [] => None end.
